@@ -34,6 +34,15 @@ CORPUS = os.path.join(VERIF, "corpus", "crc")
 
 
 # ------------------------------------------------------------------ instrumentation of the real decoder
+class ReadBudgetExceeded(BaseException):
+    """Raised by the counting wrapper (never by afkak); BaseException so that no handler in the
+    decoder can swallow it."""
+
+
+def budget(n):
+    return 8 * n + 256
+
+
 class Instr:
     """Counting wrappers around the primitive readers, zlib.crc32 and gzip_decode as seen by
     afkak.kafkacodec.  Installed once per run, always restored."""
@@ -85,11 +94,16 @@ class Instr:
     def _count(self, f):
         def w(*a):
             self.reads += 1
+            if self.reads > self.limit + 8 * self.gz_bytes:
+                # far beyond every admissible bound: stop the decoder instead of letting a
+                # cursor-looping input run for hours; the monitor then fails on the count
+                raise ReadBudgetExceeded(self.reads)
             return f(*a)
 
         return w
 
-    def reset(self):
+    def reset(self, limit=10 ** 9):
+        self.limit = limit
         self.reads = 0
         self.crc_bytes = 0
         self.gz = []
@@ -130,7 +144,7 @@ def drain_set(it):
     try:
         for om in it:
             out.append(canon_msg(om.offset, om.message))
-    except Exception as e:  # noqa: BLE001
+    except (Exception, ReadBudgetExceeded) as e:  # noqa: BLE001
         return out, type(e).__name__
     return out, "ok"
 
@@ -190,17 +204,17 @@ def eval_set(instr, data):
     """Iterate the real _decode_message_set_iter(data). -> dict"""
     from afkak.kafkacodec import KafkaCodec as C
 
-    instr.reset()
+    instr.reset(budget(len(data or b"")))
     y, e = drain_set(C._decode_message_set_iter(data))
     return {"yielded": y, "end": e, "cost": instr.reads + instr.crc_bytes, "gz": instr.gz_bytes, "gzt": instr.gz_tokens()}
 
 
 def eval_dec(instr, decs, name, version, data):
     """Run one real decode_* (generators drained; fetch message sets iterated). -> dict"""
-    instr.reset()
+    instr.reset(budget(len(data)))
     try:
         v = decs[name](data, version)
-    except Exception as e:  # noqa: BLE001
+    except (Exception, ReadBudgetExceeded) as e:  # noqa: BLE001
         return {"out": "error " + type(e).__name__, "outer": instr.reads, "cost": instr.reads, "gz": 0, "gzt": [], "sets": []}
     outer = instr.reads
     sets = []
@@ -542,7 +556,7 @@ def burst_cases(ctx, res, instr, n_msgs, exhaustive_span, per_span, sampled_larg
         e = bytes(4) + e_body
         bad = bytes(x ^ y for x, y in zip(msg, e))
         data = R.enc_set(entries[:j] + [(off, bad)] + entries[j + 1 :])
-        instr.reset()
+        instr.reset(budget(len(data)))
         y, end = drain_set(C._decode_message_set_iter(data))
         res.evaluations += 1
         sc = {"kind": "burst", "entries": [[o, hx(m)] for o, m in entries], "refs": refs, "j": j, "e": hx(e), "k": k, "order": order}
@@ -621,7 +635,7 @@ def trunc_cases(ctx, res, instr, n_sets, every_cut_below, sampled_cuts):
             if c < 0 or c > len(data):
                 continue
             part = data[:c]
-            instr.reset()
+            instr.reset(budget(len(part)))
             y, end = drain_set(C._decode_message_set_iter(part))
             cost = instr.reads + instr.crc_bytes
             res.evaluations += 1
